@@ -68,7 +68,8 @@ def codegen(wd, crate, features=(), rustflags="", harness_filters=None, cfg_miri
         shutil.copy(lock, os.path.join(dst, "Cargo.lock"))
     if REPO != "/repo":
         ct = os.path.join(dst, "Cargo.toml")
-        open(ct, "w").write(open(ct).read().replace('path = "/repo"', 'path = "%s"' % REPO))
+        txt = open(ct).read().replace('path = "/repo"', 'path = "%s"' % REPO)
+        open(ct, "w").write(txt)
     tdir = os.path.join(wd.path, label, "target")
     env = dict(os.environ)
     env["CARGO_NET_OFFLINE"] = "true"
